@@ -11,6 +11,9 @@ Static clauses decided (necessary conditions of C21):
  OBSERVE    observing a collection records the read: every normal return of Set.copy (the function behind iteration,
             set(), ==) is dominated by the block that sets the read bit of each item's reverse attribute -- without it a
             later refresh of the child row silently moves the child out of a collection the session already saw.
+ SERIAL     the serialising readers hand attribute values to the program, so they record the read like plain attribute access does:
+            Entity.to_dict and Bag._process_object obtain every value through attr.__get__(obj) (collections: __get__ or Set.copy),
+            never through attr.get(obj) or obj._vals_[attr], which return the value without setting the read bit.
  PHANTOM    Set.load and Set.prefetch_load_all compare the freshly loaded rows with what the session holds and throw
             'Phantom object ... disappeared' before marking the collection fully loaded; db_reverse_add throws 'Phantom object
             ... appeared' for a fully loaded, non-volatile collection before adding the item.
@@ -101,8 +104,21 @@ def run(ctx):
     ctx.ob('C21-PHANTOM.appeared-item-detected', dra, adds[0].ast if adds else dra.node, ok,
            '' if ok else 'an item can be added to a fully loaded, non-volatile collection from database rows without UnrepeatableReadError')
 
+    # ---------------------------------------------------------------- SERIAL
+    for modname, qual in (('pony.orm.core', 'Entity.to_dict'), ('pony.orm.serialization', 'Bag._process_object')):
+        f = repo.fn(modname, qual)
+        silent = [c for c in calls_in(f.node) if isinstance(c.func, ast.Attribute) and c.func.attr == 'get' and dotted(c.func.value) in ('attr',) and c.args]
+        silent += [x for x in walk_no_nested(f.node) if isinstance(x, ast.Subscript) and isinstance(x.ctx, ast.Load) and isinstance(x.value, ast.Attribute) and x.value.attr in ('_vals_', '_dbvals_')]
+        recording = [c for c in calls_in(f.node) if isinstance(c.func, ast.Attribute) and c.func.attr == '__get__' and dotted(c.func.value) == 'attr']
+        ok = bool(recording) and not silent
+        ctx.ob('C21-SERIAL.serialised-values-are-recorded-as-read', f, silent[0] if silent else f.node, ok,
+               '' if ok else '%s reads an attribute value with `%s`, which does not set the read bit: the program has seen the value, yet a later refresh of the row overwrites it '
+               'silently instead of raising UnrepeatableReadError' % (qual, norm(silent[0]) if silent else 'no attr.__get__(obj)'), node=silent[0] if silent else None,
+               expected='attr.__get__(obj)')
+
 
 MUTANTS = [
+    dict(id='C21-s1', file='pony/orm/core.py', fn='Entity.to_dict', old="            value = attr.__get__(obj)\n", new="            value = attr.get(obj) if not attr.is_collection else attr.__get__(obj)\n", expect='C21-SERIAL'),
     dict(id='C21-m1', file='pony/orm/core.py', fn='Set.copy', old='        if setdata is None or not setdata.is_fully_loaded: setdata = attr.load(obj)\n',
          new='        if setdata is not None and setdata.is_fully_loaded: return set(setdata)\n        setdata = attr.load(obj)\n', expect='C21-OBSERVE'),
     dict(id='C21-m2', file='pony/orm/core.py', fn='Entity._db_set_', old='bit = obj._bits_except_volatile_[attr]\n            if rbits & bit:', new='bit = obj._bits_except_volatile_[attr]\n            if rbits & bit and False:', expect='C21-OVERWRITE'),
